@@ -46,6 +46,8 @@ func buildProperties() []Property {
 				{"R-POSITION-PAIRING", 6, rulePositionPairing},
 				{"R-PEEK-UNREAD", 5, rulePeekUnread},
 				{"R-STREAM-TYPE-GUARD", 4, ruleStreamTypeGuard},
+				{"R-RING-STICKY", 2, ruleRingSticky},
+				{"R-UNREAD-EOF", 1, ruleUnreadEOF},
 				{"R-EOF-ACTION-PAST", 1, ruleEOFActionPast},
 				{"R-LOOKAHEAD", 20, ruleLookahead},
 			},
